@@ -4,9 +4,20 @@ PROPERTIES = {
     "C04": dict(
         modules=["solids"],
         level="proof",
-        claim="decision logic of the multi-pass overlap tests agrees with overlap(self, other) relative to the kernel axioms",
-        note="see evidence.trusted_base",
-        assumptions=[],
-        not_reached=[],
+        claim=(
+            "relative to the kernel axioms K-prism, K1-K8 (each written once, listed as trusted): every return of Object.intersects "
+            "(TypeError guard, planar-box/planar-box and planar-box/PolygonalRegion fast paths decided exactly as `the two point sets share "
+            "a point`, default = exhaustive test on the occupied spaces), of MeshVolumeRegion.intersects (volume/volume arm, passes 1-5) and of "
+            "MeshVolumeRegion.containsObject (passes 1-5) agrees with overlap(self, other) / inside(obj, self)"
+        ),
+        note="the kernels themselves (FCL, trimesh booleans/proximity, shapely) are trusted; configurations within tolerance of touching are outside the statement",
+        assumptions=["kernel axioms K-prism, K1-K8 (see trusted_base)"],
+        not_reached=[
+            "FCL / trimesh / shapely kernels (trusted)",
+            "MeshVolumeRegion.intersects: MeshSurfaceRegion and PolygonalFootprintRegion arms; MeshSurfaceRegion.intersects",
+            "Object.minimumDistanceTo, Object._boundingPolygon (affine matrix), _isPlanarBox, MeshVolumeRegion._circumradius/_interiorPoint/_interiorPointRadii/_bodyCount (the helper values are axiomatised, incl. the suspected world-origin fallback of _circumradius, notes/recon/r10)",
+            "PolygonalFootprintRegion.containsObject, GridRegion.containsObject",
+        ],
+        bounded=["MeshVolumeRegion.containsObject: meshes of 2 vertices (symbolic coordinates)"],
     )
 }
